@@ -62,22 +62,38 @@ def run(ctx):
     replay = None
     select = None
     formats = sc.FORMATS
+    deep = not ctx.quick()
+    extra = None
     if ctx.replay:
         replay = json.load(open(ctx.replay))["replay"]
-        select = lambda cat: [replay["schema_id"]]
+        deep = True
+        extra = [{"schema": replay["schema"], "leaf": replay.get("leaf", "replay"), "pos": replay.get("pos", "replay"), "cons": True}]
+        select = lambda cat: [min(i for i, e in cat.items() if e["schema"] == replay["schema"])]
         formats = (replay["format"],)
     # the schema written after C13's own quantifier is part of every slice
-    batch = sc.run_batch(ctx, select=select, formats=formats, must=("equality",))
+    batch = sc.run_batch(ctx, select=select, formats=formats, must=("equality", "equality-2"), deep=deep, extra=extra)
     units = [u for u in batch.units.values() if u["status"] == "ok"]
     cmds, meta = [], {}
     for u in units:
-        cs = [c for c in batch.cases[u["id"]] if c["accepts"] or c["f"] == "BreakBound"]
+        cs = [c for c in batch.cases[u["id"]] if c["accepts"] or set(sc.parts(c["f"])) <= {"base", "alt", "BreakBound"}]
         if replay:
             chunks = [[{"py": d, "f": "replay", "p": [], "n": i} for i, d in enumerate(replay["docs"])]]
         else:
             base = [c for c in cs if c["f"] == "base"]
             rest = [c for c in cs if c["f"] != "base"]
             chunks = [base + rest[i:i + CHUNK - 1] for i in range(0, max(len(rest), 1), CHUNK - 1)]
+            if deep and len(rest) > CHUNK - 1:
+                # thorough: the same values again in STRIDED chunks, so that triples are drawn from variations at different
+                # depths (consecutive documents vary the same place), ...
+                k = len(chunks)
+                chunks += [base + rest[i::k] for i in range(k)]
+            if deep:
+                # ... and every group of documents that differ only in absent / null / empty collection in one matrix
+                groups = collections.defaultdict(list)
+                for c in cs:
+                    groups[canon(c["py"])].append(c)
+                same = [c for g in groups.values() if len(g) > 1 for c in g if c["f"] != "base"]
+                chunks += [base + same[i:i + CHUNK - 1] for i in range(0, len(same), CHUNK - 1)]
         for k, ch in enumerate(chunks):
             key = "%s/eq%d" % (u["pkg"], k)
             cmds.append({"op": "eq", "id": key, "type": u["type"], "docs": [c["py"] for c in ch]})
@@ -94,7 +110,8 @@ def run(ctx):
         entry = batch.cat[u["id"]]
         schema = entry["schema"]
         if r.get("panic"):
-            ctx.fail("C13/go/panic/%s" % (entry["leaf"] + "@fixed" if entry["pos"] == "fixed" else entry["pos"]),
+            msg, _, site = r["panic"].partition(" @@ ")
+            ctx.fail("C13/go/panic:%s/at:%s" % (sc._slug(msg), sc._site(site)),
                      "Equals / decoding panics: %s" % r["panic"],
                      {"schema_id": u["id"], "format": u["fmt"], "schema": schema, "docs": [c["py"] for c in ch]})
             continue
@@ -126,6 +143,9 @@ def run(ctx):
         # single-leaf mutations: pairs (base, variant)
         if docs and docs[0]["f"] == "base":
             for j in range(1, n):
+                if "+" in docs[j]["f"]:
+                    stats["two_place_mutation_pairs"] += 1
+                    continue
                 stats["single_leaf_mutation_pairs"] += 1
                 if not m[0][j]:
                     stats["single_leaf_mutation_pairs_unequal"] += 1
@@ -140,8 +160,8 @@ def run(ctx):
                 cls = sc.diff_class(schema, encs[w[0]], encs[w[1]])
             elif law == "Transitive":
                 # a.Equals(b), b.Equals(c), not a.Equals(c): the class is the difference the code overlooked
-                cls = sc.diff_class(schema, encs[w[0]], encs[w[1]]) if canon(encs[w[0]]) != canon(encs[w[1]]) \
-                    else sc.diff_class(schema, encs[w[1]], encs[w[2]]) if canon(encs[w[1]]) != canon(encs[w[2]]) else fam
+                cls = sc.diff_class(schema, encs[w[0]], encs[w[1]]) if not sc.json_equal(encs[w[0]], encs[w[1]]) \
+                    else sc.diff_class(schema, encs[w[1]], encs[w[2]]) if not sc.json_equal(encs[w[1]], encs[w[2]]) else fam
             else:
                 cls = fam
             what = {
@@ -174,8 +194,7 @@ def run(ctx):
                            "nontrivial_same_json_pairs_of_distinct_documents", "nontrivial_transitive_triples") if stats[k] == 0]
         vac += ["position:" + t for t in NEED_TOKENS if per_tok[t] == 0]
         vac += ["kind:" + k for k in NEED_KINDS if per_kind[k] == 0]
-        if vac:
-            raise core.Inconclusive("vacuous laws / classes: %s" % vac)
+        sc.vacuity_gate(ctx, vac, "vacuous laws / classes")
         binding = selftest(ctx, batch, recs, meta, order)
     status = collections.Counter(u["status"] for u in batch.units.values())
     cov = {
